@@ -60,11 +60,14 @@ fn fill(c: &mut CmdSpec, st: &mut Rng, ct: &mut Rng, hostile: bool, names_too: b
     slot!(&mut c.after_long_help, true);
     slot!(&mut c.before_help, true);
     slot!(&mut c.author, false);
+    // (versions may span several lines too)
     if c.version.is_some() {
-        c.version = Some(text(st, ct, hostile, false));
+        let ml = st.chance(1, 4);
+        c.version = Some(text(st, ct, hostile, ml));
     }
     if c.long_version.is_some() {
-        c.long_version = Some(text(st, ct, hostile, false));
+        let ml = st.chance(1, 2);
+        c.long_version = Some(text(st, ct, hostile, ml));
     }
     if names_too {
         if st.chance(1, 3) {
